@@ -380,7 +380,10 @@ def run_cases(res, cases, handler, compare=None):
         i = h["impl"]
         same = (m == i) if compare is None else compare(case, m, i)
         if not same:
-            k = next((j for j in range(min(len(m), len(i))) if m[j] != i[j]), min(len(m), len(i)))
+            strip = (lambda x: x.rsplit(" ok=", 1)[0]) if compare is not None else (lambda x: x)
+            k = next((j for j in range(min(len(m), len(i))) if strip(m[j]) != i[j]), min(len(m), len(i)))
+            if k >= min(len(m), len(i)) and m:
+                k = next((j for j in range(len(m)) if " ok=" in m[j] and not m[j].rsplit(" ok=", 1)[1].startswith("11")), 0)
             res.disagree(f"op `{h['ops'][k] if k < len(h['ops']) else '?'}`: model `{m[k] if k < len(m) else None}` "
                          f"vs implementation `{i[k] if k < len(i) else None}`", case, m[:50], i[:50])
         res.sample({"case": case, "ops": h["ops"][:6], "model": m[:6], "impl": i[:6]})
